@@ -3,7 +3,7 @@
    runner and by vm_compute inside Coq (Cases_*.v). *)
 From Coq Require Import List NArith ZArith Bool String.
 From Coq.Strings Require Import Byte.
-From OAP Require Import Base.Bytes Base.Res Base.Text Gen.Consts Model.Handshake Model.Metadata Model.Header Model.Frame Model.Stream Model.Chunks Model.World Model.Ids Model.Waiters Model.Dispatch Model.WritePath Model.Recovery Model.Keepalive Model.WsBridge Model.Life.
+From OAP Require Import Base.Bytes Base.Res Base.Text Gen.Consts Model.Handshake Model.Metadata Model.Header Model.Frame Model.Stream Model.Chunks Model.World Model.Ids Model.Waiters Model.Dispatch Model.WritePath Model.Recovery Model.Keepalive Model.WsBridge Model.Life Model.CloseLock.
 Import ListNotations.
 Local Open Scope N_scope.
 
@@ -686,6 +686,22 @@ Definition run_lf (op : bytes) (args : list bytes) : bytes :=
     | _ => bad end
   else bad.
 
+(* ---- Close vs a closing reader (C14/C06) ----
+   cl.run <n other readers> <thread> ...   thread: U user Close | R the other closer | E another read-lock holder finishes
+   (a blocked thread does not move); output: final=<b> blockedU=<b> blockedR=<b> *)
+Definition run_cl (args : list bytes) : bytes :=
+  match args with
+  | n :: ws =>
+      match undec n, omap_all (fun w => if bytes_eqb w (str "U") then Some TU else if bytes_eqb w (str "R") then Some TR
+                                        else if bytes_eqb w (str "E") then Some TEnv else None) ws with
+      | Some n, Some ws =>
+          let s := CloseLock.run (CloseLock.init (N.to_nat n)) ws in
+          str "final=" ++ bool_s (CloseLock.final s)
+          ++ str " blockedU=" ++ bool_s (match CloseLock.step s TU with None => negb (match u s with U5 => true | _ => false end) | _ => false end)
+          ++ str " blockedR=" ++ bool_s (match CloseLock.step s TR with None => negb (match r s with R6 => true | _ => false end) | _ => false end)
+      | _, _ => bad end
+  | _ => bad end.
+
 Definition run_line (line : bytes) : bytes :=
   match words line with
   | op :: args =>
@@ -701,6 +717,7 @@ Definition run_line (line : bytes) : bytes :=
       else if starts_with (str "ka.") op then run_ka op args
       else if starts_with (str "wb.") op then run_wb op args
       else if starts_with (str "lf.") op then run_lf op args
+      else if bytes_eqb op (str "cl.run") then run_cl args
       else bad
   | [] => bad
   end.
